@@ -123,7 +123,8 @@ func (c01) Gen(r *kern.Rng, tier string, idx int) *Trace {
 		sc := &scen.WScen{Pkg: "flate", Guard: true, Ctor: r.PickS("new", "new", "4k"), Level: r.Pick(1, 2, -1)}
 		sc.Data = scen.DataSpec{Kind: "logcopies", Seed: r.Uint64(), P1: r.Pick(0, 1), Len: r.Range(150000, 320000)}
 		sc.Ops = []scen.WOp{{K: "w", N: 1 << 30}, {K: "c"}}
-		return &Trace{Property: "C01", Family: "W-plain(content sweep)", W: sc, Sweep: true, Stride: tierLen(tier, 40, 120), Note: "seed_sweep"}
+		stride, note := contentSweepKind(r, tier, sc)
+		return &Trace{Property: "C01", Family: "W-plain(content sweep)", W: sc, Sweep: true, Stride: stride, Note: note}
 	}
 	if idx%197 == 3 { // a prime, so that the sweeps spread over all worker shards
 		// length sweep: the same setting and data for several hundred consecutive
@@ -244,12 +245,47 @@ func sameAsStdlibSeg(sc *scen.WScen, seg int) bool {
 	return true
 }
 
+// contentSweepKind picks what a content sweep varies (sc.Data, possibly
+// sc.Level) and returns its stride and the sweep note.
+func contentSweepKind(r *kern.Rng, tier string, sc *scen.WScen) (int, string) {
+	switch r.Weighted(3, 3, 2, 2) {
+	case 1:
+		// bursts of maximal-width tokens; the length of the leading fresh run is swept, which moves every burst
+		// through the phases of the encoder's output-buffer hand-over
+		sc.Data = scen.DataSpec{Kind: "heavyburst", Seed: r.Uint64(), P1: r.Range(4200, 9000), P2: r.Pick(33, 64), Len: r.Range(80000, 200000)}
+		if r.Pct(75) {
+			// one burst, placed where the emitted size is about to cross a multiple of the encoders' 8 KiB
+			// output buffer (fresh bytes cost about 8 bits each): the sweep moves it across that point
+			sc.Data.Seed |= 1
+			k := r.Pick(1, 1, 1, 2, 3)
+			sc.Data.P1 = k*8192 - 350*k - 400 + r.Intn(40) // (hand-overs come a little before the multiples)
+			sc.Data.Len = sc.Data.P1 + 90000
+			return tierLen(tier, 250, 500), "p1_sweep"
+		}
+		sc.Data.Seed &^= 1
+		return tierLen(tier, 40, 120), "p1_sweep"
+	case 2:
+		// histograms that make the code-length code (limit 7 bits) deep
+		sc.Level = r.Pick(-2, -2, -2, 1, 2)
+		sc.Data = scen.DataSpec{Kind: "dyadic", Seed: r.Uint64(), P1: r.Pick(13, 14, 15, 15), P2: 2}
+		sc.Data.Len = 1<<uint(sc.Data.P1) - 1
+		return tierLen(tier, 200, 600), "seed_sweep"
+	case 3:
+		// histograms whose optimal literal code is much deeper than 15 bits
+		sc.Level = r.Pick(-2, -2, -2, 1, 2)
+		sc.Data = scen.DataSpec{Kind: "headtail", Seed: r.Uint64(), P1: r.Pick(11, 13, 14, 15, 17), P2: r.Pick(15, 31, 63, 100, 200)}
+		sc.Data.Len = r.Range(20000, 65000)
+		return tierLen(tier, 100, 300), "seed_sweep"
+	}
+	return tierLen(tier, 40, 120), "seed_sweep"
+}
+
 // lengthSweep executes the trace for Stride consecutive data lengths.
 func lengthSweep(tr *Trace, keep bool, exec func(*Trace) *Outcome) *Outcome {
 	o := &Outcome{LevelIndep: true}
 	o.stat("length_sweeps", 1)
 	h := uint64(0)
-	if tr.Note == "" && tr.W.Data.Kind != "head_run" && tr.Index%2 == 0 {
+	if tr.Note == "" && tr.W.Data.Kind != "head_run" && tr.Index%2 == 0 { // (content sweeps carry a note)
 		// aim the window: start it shortly before the length at which the emitted
 		// size crosses the next multiple of 8 KiB (encoders hand their output over
 		// in buffer-sized pieces; the end of the data should meet that hand-over)
@@ -276,6 +312,9 @@ func lengthSweep(tr *Trace, keep bool, exec func(*Trace) *Outcome) *Outcome {
 		c.Sweep, c.Stride = false, 0
 		if tr.Note == "seed_sweep" {
 			c.W.Data.Seed = tr.W.Data.Seed + uint64(d) // same shape, different content
+			c.Note = ""
+		} else if tr.Note == "p1_sweep" {
+			c.W.Data.P1 = tr.W.Data.P1 + 2*d // same content behind a longer and longer leading run
 			c.Note = ""
 		} else {
 			c.W.Data.Len = tr.W.Data.Len + d
